@@ -6,7 +6,8 @@
                                                         attempt of batch k, `d k keep` when Out has returned)
     dead-queue batcher  A H S O D CB X                (same tokens in upper case)
     t <k> <ok>          a call of the send function for main batch k returned (1 = nil error)
-    n <k> <tries> <stop> NextBackOff() was called for batch k with numTries = tries; stop = 1: it returned Stop
+    n <k> <tries> <stop> <pauseNs>  NextBackOff() was called for batch k with numTries = tries; stop = 1: it returned
+                        Stop; pauseNs = the pause it asked for (0 with stop)
     e <k> <n> <id>*n    onRetryError was called for batch k with these events
     f <k> <id>          Router.Fail(event) handed the event to the dead-queue output's Out
     C <id>              a synchronous dead-queue output committed the event inside its Out
@@ -24,7 +25,7 @@ open FileD FileD.Batcher
 
 inductive CTk
   | m (t : Tk) | q (t : Tk)
-  | t (k : Nat) (ok : Bool) | n (k tries : Nat) (stop : Bool) | e (k : Nat) (ids : List Nat)
+  | t (k : Nat) (ok : Bool) | n (k tries : Nat) (stop : Bool) (pause : Nat) | e (k : Nat) (ids : List Nat)
   | f (k id : Nat) | c (id : Nat) | z
 deriving Repr
 
@@ -40,7 +41,7 @@ def upperHead : String → String
 open FileD.Tok in
 def parseCTk : List String → Option (CTk × List String)
   | "t" :: k :: ok :: r => do pure (.t (← nat? k) (← bool? ok), r)
-  | "n" :: k :: tr :: st :: r => do pure (.n (← nat? k) (← nat? tr) (← bool? st), r)
+  | "n" :: k :: tr :: st :: pz :: r => do pure (.n (← nat? k) (← nat? tr) (← bool? st) (← nat? pz), r)
   | "e" :: k :: r => do
     let (ids, r') ← listOf nat? r
     pure (.e (← nat? k) ids, r')
@@ -70,7 +71,7 @@ def CTk.render : CTk → String
     | hd :: r => unwords (upperHead hd :: r)
     | [] => ""
   | .t k ok => unwords ["t", toString k, ofBool ok]
-  | .n k tr st => unwords ["n", toString k, toString tr, ofBool st]
+  | .n k tr st pz => unwords ["n", toString k, toString tr, ofBool st, toString pz]
   | .e k ids => unwords ["e", toString k, encList toString ids]
   | .f k id => unwords ["f", toString k, toString id]
   | .c id => unwords ["C", toString id]
@@ -142,14 +143,15 @@ def replayC (mc dc : Cfg) (rc : RCfg) (cr : CReplay) (t : CTk) (rest : List CTk)
       match (observable res.log)[rr.seen]? with
       | some (.send ok') => some ({ cr with recs := putRec rr' cr.recs }, .t k ok')
       | _ => none
-  | .n k _ stop =>
+  | .n k _ stop pause =>
     let rr := getRec k cr.recs
-    let rr' := { rr with backs := rr.backs ++ [if stop then .stop else .dur 1], seen := rr.seen + 1 }
+    let rr' := { rr with backs := rr.backs ++ [if stop then .stop else .dur pause], seen := rr.seen + 1 }
     match outOf rc cr rr' with
     | none => none
     | some res =>
       match (observable res.log)[rr.seen]? with
-      | some (.next tries b) => some ({ cr with recs := putRec rr' cr.recs }, .n k tries (b == .stop))
+      | some (.next tries b) =>
+        some ({ cr with recs := putRec rr' cr.recs }, .n k tries (b == .stop) (match b with | .dur d => d | .stop => 0))
       | _ => none
   | .e k _ =>
     let rr := getRec k cr.recs
